@@ -11,6 +11,14 @@ pub fn decode_stub<'a>(_e: &'static encoding_rs::Encoding, bytes: &'a [u8]) -> (
 pub fn replace_all_stub<'h, R: regex::Replacer>(_r: &regex::Regex, haystack: &'h str, _rep: R) -> std::borrow::Cow<'h, str> {
     std::borrow::Cow::Borrowed(haystack)
 }
+/// float text is outside the claim; without these two stubs CBMC unwinds core's grisu/bignum float formatter on paths it cannot
+/// rule out by constant propagation (> 15 min instead of 30 s)
+pub fn f32_display_stub(_v: &f32, _f: &mut std::fmt::Formatter<'_>) -> std::fmt::Result {
+    Ok(())
+}
+pub fn f64_display_stub(_v: &f64, _f: &mut std::fmt::Formatter<'_>) -> std::fmt::Result {
+    Ok(())
+}
 static mut DUMMY_RE: std::mem::MaybeUninit<regex::Regex> = std::mem::MaybeUninit::uninit();
 pub fn re_deref_stub(_s: &crate::dlt::RE_NEW_LINE) -> &regex::Regex {
     unsafe { &*std::ptr::addr_of!(DUMMY_RE).cast::<regex::Regex>() }
@@ -69,9 +77,19 @@ fn text_args<const K: usize>(kinds: [u8; K]) {
         };
         DltArg { type_info: ti, is_big_endian: big, payload_raw: raw }
     };
-    let args = [mk(0), mk(1 % K), mk(2 % K)];
+    // arguments are produced one by one by a closure (an array::IntoIter moves them through ptr::read, after which CBMC no
+    // longer knows the type info is a constant and explores every rendering branch incl. u128/float formatting: > 15 min)
+    let mut produced = 0usize;
+    let args = std::iter::from_fn(|| {
+        if produced < K {
+            produced += 1;
+            Some(mk(produced - 1))
+        } else {
+            None
+        }
+    });
     let mut text = String::with_capacity(32);
-    let r = DltMessage::process_msg_arg_iter(args.into_iter().take(K), &mut text);
+    let r = DltMessage::process_msg_arg_iter(args, &mut text);
     assert!(r.is_ok());
     // expected: canonical texts joined by exactly one space (none at the ends, one per argument boundary even if empty)
     let mut exp = [0u8; 24];
@@ -109,6 +127,8 @@ macro_rules! text_h {
         #[kani::stub(encoding_rs::Encoding::decode_without_bom_handling, decode_stub)]
         #[kani::stub(regex::Regex::replace_all, replace_all_stub)]
         #[kani::stub(<crate::dlt::RE_NEW_LINE as std::ops::Deref>::deref, re_deref_stub)]
+        #[kani::stub(<f32 as std::fmt::Display>::fmt, f32_display_stub)]
+        #[kani::stub(<f64 as std::fmt::Display>::fmt, f64_display_stub)]
         fn $name() {
             text_args::<$k>($kinds);
         }
